@@ -337,9 +337,15 @@ def r1b(ctx, R):
     repo = ctx.repo
     # ---- imex_1st_order_mass: res[m] = integrate()[m] + M(u0 - u[m+1]) on level 0 | + u0 - M u[m+1] on coarse levels (+ tau[m])
     rel = sw.SW + 'imex_1st_order_mass.py'
-    fn = repo.func(rel, 'imex_1st_order_mass.compute_residual')
-    w = f'{rel}:imex_1st_order_mass.compute_residual'
+    r_ = repo.resolve(repo.cls(rel, 'imex_1st_order_mass'), 'compute_residual')
+    if r_ is None:
+        raise AnalysisError('C03.R1b: imex_1st_order_mass resolves no compute_residual at all')
+    owner, fn = r_
+    w = f'{owner.module.relpath}:{owner.name}.compute_residual'
     R.fn(w)
+    if owner.name == 'Sweeper':
+        R.bad('imex_1st_order_mass.compute_residual :: defect = integrate + M(u0 - u) | u0 - M u (+tau)', f'{rel}:imex_1st_order_mass', 'an implementation with the mass matrix, found first in the MRO of imex_1st_order_mass', 'the method resolution order hands the mass-matrix sweeper Sweeper.compute_residual (u0 + dt Q F - u, no mass matrix): the residual that stops the iteration is not the defect of the problem that is solved')
+        return _r1b_mpi(ctx, R)
     sig = Signature(fn, rename=sw.role_renames(fn))
     lines = sorted(l.text() for l in sig.lines if l.target.startswith('KNOWN'))
     skip = 'stage not in self.params.skip_residual_computation'
@@ -355,6 +361,12 @@ def r1b(ctx, R):
     R.check(len(norm) == 1 and sig._rn(norm[0].rhs) == 'abs(KNOWN[i1 - 1])', 'imex_1st_order_mass.compute_residual :: norm list holds abs(defect[m]) of every node', w, 'res_norm[m] = abs(res[m])', [c.describe() for c in norm])
     fx = [c for c in N.calls if c[0].startswith('P.fix_residual(')]
     R.check(len(fx) == 1 and fx[0][2][-1:] == ['P.fix_bc_for_residual'], 'imex_1st_order_mass.compute_residual :: boundary rows fixed only when the problem asks for it', w, 'if P.fix_bc_for_residual: P.fix_residual(res[m])', [c[0] for c in fx])
+    _r1b_mpi(ctx, R)
+
+
+def _r1b_mpi(ctx, R):
+    repo = ctx.repo
+    skip = 'stage not in self.params.skip_residual_computation'
     # ---- SweeperMPI: res = integrate(last_only=...) + u[0] - u[rank+1] (+ tau[rank]); res_norm = abs(res)
     rel = sw.SW + 'generic_implicit_MPI.py'
     fn = repo.func(rel, 'SweeperMPI.compute_residual')
@@ -462,3 +474,44 @@ def r9(ctx, R):
 def r10(ctx, R):
     from . import c02
     c02.r10(ctx, R)
+
+
+def _bare_f_arith(fn):
+    """arithmetic on a whole right-hand-side object `X.f[i]` (operand of + - * / or of an augmented assignment) - for an
+    IMEX sweeper that object has an implicit and an explicit row, which must be addressed (.impl / .expl) or summed"""
+    hits = []
+
+    def is_f(e):
+        return isinstance(e, ast.Subscript) and isinstance(e.value, ast.Attribute) and e.value.attr == 'f'
+
+    for x in ast.walk(fn):
+        if isinstance(x, ast.BinOp) and (is_f(x.left) or is_f(x.right)):
+            hits.append(f'line {x.lineno}: {ast.unparse(x)[:70]}')
+        if isinstance(x, ast.AugAssign) and is_f(x.value):
+            hits.append(f'line {x.lineno}: {ast.unparse(x)[:70]}')
+    return hits
+
+
+@rule('C03', 'C03.R11', 'IMEX sweepers anywhere in the repository (projects included): the implementations of integrate / compute_residual / compute_end_point that the method resolution order hands to a sweeper with an implicit-explicit right-hand side never do arithmetic on a whole f[m] (two rows) - a residual formed that way is not the defect of the summed right-hand side', floor=8)
+def r11(ctx, R):
+    from ..model import Repo, ClassInfo
+    big = ctx.memo('repo_with_projects', lambda: Repo(ctx.repo.root, extra_dirs=('pySDC/projects',)))
+    base = big.cls('pySDC/core/sweeper.py', 'Sweeper')
+    imex = big.cls(sw.SW + 'imex_1st_order.py', 'imex_1st_order')
+    pc = ast.parse('def f(self):\n    res = self.level.u[0]\n    for m in range(3):\n        res += 0.1 * self.level.f[m]\n').body[0]
+    if len(_bare_f_arith(pc)) != 1:
+        raise AnalysisError('C03.R11 positive control not detected')
+    n = 0
+    for ci in big.subclasses(imex):
+        for meth in ('integrate', 'compute_residual', 'compute_end_point'):
+            r = big.resolve(ci, meth)
+            if r is None:
+                continue
+            owner, fn = r
+            n += 1
+            w = f'{owner.module.relpath}:{owner.name}.{meth}'
+            R.fn(w)
+            hits = _bare_f_arith(fn)
+            R.check(not hits, f'{ci.name}.{meth} (defined by {owner.name}) :: the two rows of f[m] are addressed or summed, never used as one operand', w, 'L.f[m].impl / L.f[m].expl (or their sum)', hits[:3])
+    if n < 8:
+        raise AnalysisError(f'C03.R11: only {n} resolved IMEX sweeper methods found')
